@@ -13,7 +13,9 @@ LEAN_TARGETS = ['DeepModel.Props.C13']
 AUDIT = 'DeepModel/Audit/C13.lean'
 DRIVER = 'DeepModel/Driver/C13.lean'
 BUDGET = {'quick': 850, 'thorough': 8000}
-RULE = ('[line-granular preemption, oracle only: 6 victim/intruder pairs x the victim parked before its k-th line in '
+RULE = ('[call forms, oracle only (1 in 7): 1..4 registrations through Deep.register_tracepoint with each of args / '
+        'watches / metrics omitted, None, empty or given, some unregistered, then every location hit once through the '
+        'real trace_call: one snapshot per live registration] [line-granular preemption, oracle only: 6 victim/intruder pairs x the victim parked before its k-th line in '
         'tracepoint_config.py, k = 1..24] op sequences (1..15 ops, thorough ..40): register (3 locations only, so most registrations share file+line '
         'with another; unique watch as the distinguishing tag; varied args; 5% with an unknown stage), unregister (live handle, already '
         'unregistered handle, never issued handle), service answers through LongPoll.poll against a scripted fake '
@@ -59,14 +61,18 @@ def gen_case(rng, tier):
 def gen(rng, tier):
     for c in svcref.preempt_cases():
         yield c
+    k = 0
     while True:
-        yield gen_case(rng, tier)
+        k += 1
+        yield svcref.gen_hits(rng) if k % 7 == 0 else gen_case(rng, tier)
 
 
 def corpus():
+    minimal = {'kind': 'hits', 'regs': [{'path': 'a.py', 'line': 10, 'form': {}}], 'unregister': []}
     reg = lambda tag, line=10, **a: {'op': 'register', 'path': 'a.py', 'line': line, 'tag': tag, 'args': a}   # noqa: E731
     ap = lambda i: {'op': 'applyTask', 'i': i}   # noqa: E731
     return [
+        minimal,     # deep.register_tracepoint(path, line) — nothing else given — must fire
         # D16: two registrations on a.py:10, the second is unregistered
         {'kind': 'seq', 'ops': [reg('w1'), reg('w2'), ap(0), ap(0), {'op': 'unregister', 'handle': 1}, ap(0)]},
         # unregister twice, then the first
@@ -86,12 +92,16 @@ def corpus():
 
 
 def run_impl(case):
+    if case['kind'] == 'hits':
+        return svcbench.run_hits(case)
     if case['kind'] == 'preempt':
         return svcbench.run_preempt(case)
     return svcbench.run_ops(case['ops'])
 
 
 def oracle(case, obs):
+    if case['kind'] == 'hits':
+        return svcref.hits_oracle(case, obs)
     if case['kind'] == 'preempt':
         return svcref.preempt_oracle(case, obs)
     v = []
@@ -117,6 +127,8 @@ def oracle(case, obs):
 
 
 def model_request(case, obs):
+    if case['kind'] == 'hits':
+        return None          # whether an installed action fires is C02/C03's model, not this one
     if case['kind'] == 'preempt':
         return None          # the model has no regions inside update_new_config / add_custom / remove_custom
     return {'ops': svcref.driver_ops(case['ops'])}
@@ -140,6 +152,9 @@ def _shared_removals(case):
 
 
 def label(case, obs):
+    if case['kind'] == 'hits':
+        forms = {r['form'].get('watches', 'omitted') for r in case['regs']}
+        return 'hits/watches-' + '+'.join(sorted(forms))
     if case['kind'] == 'preempt':
         return 'preempt/%s-vs-%s/%s' % (case['victim']['op'], case['intruder']['op'],
                                         'parked' if obs.get('reached') else 'beyond-last-line')
@@ -149,12 +164,20 @@ def label(case, obs):
 
 
 def nontrivial(case, obs):
+    if case['kind'] == 'hits':
+        return any(r['form'].get(k, 'omitted') != 'nonempty' for r in case['regs'] for k in ('args', 'watches', 'metrics'))
     if case['kind'] == 'preempt':
         return bool(obs.get('reached'))
     return _shared_removals(case) > 0
 
 
 def shrink(case):
+    if case['kind'] == 'hits':
+        for i in range(len(case['regs'])):
+            if len(case['regs']) > 1:
+                un = [j - (j > i) for j in case.get('unregister', []) if j != i]
+                yield {'kind': 'hits', 'regs': case['regs'][:i] + case['regs'][i + 1:], 'unregister': un}
+        return
     if case['kind'] == 'preempt':
         return
     ops = case['ops']
